@@ -100,10 +100,11 @@ const (
 	cfCallCtx
 	cfPing
 	cfStream
+	cfGoNil
 	nCForms
 )
 
-var cfNames = []string{"Call", "Go", "RoundTrip", "CallWithContext", "Ping", "NewStream"}
+var cfNames = []string{"Call", "Go", "RoundTrip", "CallWithContext", "Ping", "NewStream", "Go(done=nil)"}
 
 // clientCall issues one call of the given form and returns its error.
 func clientCall(c *rpc.Client, form int) error {
@@ -127,6 +128,11 @@ func clientCall(c *rpc.Client, form int) error {
 	case cfStream:
 		_, err := c.NewStream("X.Y")
 		return err
+	case cfGoNil:
+		// "If done is nil, Go will allocate a new channel"
+		call := c.Go("X.Y", nil, nil, nil)
+		recvCall(call.Done)
+		return call.Error
 	}
 	return nil
 }
@@ -389,4 +395,65 @@ func init() {
 	register(&Scenario{Prop: "C16", Name: "c16/seq-L3", Quick: []Bound{{0, 0}}, Thorough: []Bound{{1, 0}}, Body: c16SeqBody(3), MaxSteps: 100000})
 	register(&Scenario{Prop: "C16", Name: "c16/seq-L4", Quick: []Bound{}, Thorough: []Bound{{0, 0}}, Body: c16SeqBody(4), MaxSteps: 100000, BudgetT: 300})
 	register(&Scenario{Prop: "C16", Name: "c16/concurrent", Quick: []Bound{{1, 0}, {2, 0}}, Thorough: []Bound{{3, 0}}, Body: c16ConcBody, MaxSteps: 100000})
+}
+
+// Update with argument lists of every shape (duplicates whose raw count equals the number of current
+// targets, reorderings, repetitions of the current list, supersets, empty strings, two and three
+// removals at once, nothing) on clients with 2, 3 and 4 live targets: every call started after Update
+// has returned goes to a member of the new list.
+var c16Inits = [][]string{{"a", "b"}, {"a", "b", "c"}, {"a", "b", "c", "d"}}
+var c16Shapes = [][]string{
+	{"a", "a"}, {"b", "b"}, {"c", "a", "c"}, {"a", "b", "b"}, {"d", "d", "d", "a"}, {"a", "a", "b", "b"},
+	{"b", "a"}, {"a", "b"}, {"c", "b", "a"}, {"a", "b", "c", "d"}, {"a"}, {"b"}, {"d"}, {"c", "d"}, {"a", "c"}, {"d", "a"},
+	{"a", ""}, {"", ""}, {"", "b", ""}, {}, {"e"}, {"a", "e"}, {"e", "e", "e"}, {"b", "c", "d", "e"},
+}
+
+func c16Shape(x *X) {
+	sched := rpc.Scheduling(x.Choose(3))
+	init := c16Inits[x.Choose(len(c16Inits))]
+	shape := c16Shapes[x.Choose(len(c16Shapes))]
+	k := x.Choose(3)
+	s := newCliSys(x, sched, init...)
+	for _, a := range []string{"a", "b", "c", "d", "e"} {
+		s.rt.up[a] = true
+	}
+	s.tick(2)
+	for i := 0; i < k && sched != rpc.RandomScheduling; i++ {
+		clientCall(s.c, cfCall)
+	}
+	s.c.Update(shape...)
+	cur := dedup(shape)
+	from := len(s.rt.routed)
+	ncalls := 2*len(init) + 1
+	if sched == rpc.RandomScheduling {
+		ncalls = 3 // (every random pick is a choice of the explorer)
+	}
+	for i := 0; i < ncalls; i++ {
+		done := false
+		form := []int{cfCall, cfGo, cfPing, cfRoundTrip}[i%4]
+		vs.GoNamed(fmt.Sprintf("caller%d", i), func() { clientCall(s.c, form); done = true })
+		vs.Quiesce()
+		for j := 0; j < 7 && !done; j++ {
+			s.tick(1)
+		}
+		if !done {
+			x.Fail("C16/caller-stuck/shapes", "a call after Update(%q) on a client of %v never returned", shape, init)
+			break
+		}
+		if i == len(init) {
+			s.tick(1)
+		}
+	}
+	for _, r := range s.rt.userRoutes(from) {
+		if !member(cur, r.addr) {
+			x.Fail("C16/routed-to-removed-target/shapes", "client of %v (all live, scheduling %d, %d calls made): after Update(%q) returned, a %s call was routed to %q; the new target list is %v", init, sched, k, shape, r.method, r.addr, cur)
+			break
+		}
+	}
+	x.Outcome("sched=%d init=%v shape=%q k=%d routes=%d", sched, init, shape, k, len(s.rt.routed)-from)
+	s.close()
+}
+
+func init() {
+	register(&Scenario{Prop: "C16", Name: "c16/update-argument-shapes", Quick: []Bound{{0, 0}}, Thorough: []Bound{{1, 0}}, Body: c16Shape, MaxSteps: 100000, BudgetQ: 25, BudgetT: 200, MinHB: 1})
 }
